@@ -106,9 +106,17 @@ async def pair_scenario(loop, case):
             return True
 
     class Sub:
-        def __init__(self): self.subscription, self.events = None, []
-        def on_subscribe(self, s): self.subscription = s; s.request(2 ** 31 - 1)
-        def on_next(self, v, is_complete=False): self.events.append('n')
+        def __init__(self, grant=None): self.subscription, self.events, self.cancelled, self.grant = None, [], False, grant
+
+        def on_subscribe(self, s):
+            self.subscription = s
+            if self.grant:
+                s.request(self.grant)      # the responder side of a channel grants its first credit here (the requester's is the initial request-n)
+
+        def on_next(self, v, is_complete=False):
+            self.events.append('n')
+            if not is_complete and not self.cancelled:
+                self.subscription.request(1)       # keeps the stream flowing while the application wants it
         def on_complete(self): self.events.append('c')
         def on_error(self, e): self.events.append('e')
 
@@ -119,14 +127,14 @@ async def pair_scenario(loop, case):
             return f
 
         async def request_stream(self, payload):
-            p = Pub(2)
+            p = Pub(6)         # more than a small initial request-n covers: it ends by completion only if the requester keeps asking
             pubs.append(p)
             return p
 
         async def request_channel(self, payload):
             p = Pub(1)
             pubs.append(p)
-            return p, Sub()
+            return p, Sub(grant=3)
     import asyncio
     lk = L.Link(loop, case['tcp'])
     server = RSocketServer(lk.ends[1], handler_factory=H, fragment_size_bytes=case['frag'])
@@ -164,6 +172,7 @@ async def pair_scenario(loop, case):
                 if pl['kind'] == 'rr':
                     h.cancel()
                 elif h.subscription is not None:
+                    h.cancelled = True
                     h.subscription.cancel()
                 did = True
         for _ in range(2):
@@ -212,7 +221,7 @@ class C10(EngineProp):
     def cases(self, rng, tier):
         out = super().cases(rng, tier)
         for _ in range(250 if tier == 'quick' else 5000):
-            plans = [{'kind': rng.choice(['rr', 'stream', 'stream', 'channel']), 'size': rng.choice([0, 30, 200, 400]), 'n0': rng.choice([1, 2, 2 ** 31 - 1]),
+            plans = [{'kind': rng.choice(['rr', 'stream', 'stream', 'channel']), 'size': rng.choice([0, 30, 200, 400]), 'n0': rng.choice([1, 2, 2, 2 ** 31 - 1]),
                       'cancel': rng.choice([None, 0, 0, 1, 2, 3, 5])} for _ in range(rng.randint(1, 4))]
             out.append({'mode': 'pair', 'role': 'both', 'profile': 'pair', 'seed': rng.getrandbits(32), 'tcp': rng.random() < 0.4, 'frag': rng.choice([None, 64, 64]), 'plans': plans})
         return out
